@@ -22,6 +22,7 @@ META = {
     ],
     "floor_evaluations": {"quick": 2000, "thorough": 20000},
     "floor_nontrivial": {"quick": 500, "thorough": 5000},
+    "threads": 3,
     "anchors": ["func_adl/ast/func_adl_ast_utils.py"],
 }
 
